@@ -78,6 +78,14 @@ let run op a =
       let ep = iset (g 0) and b = List.hd (zs (g 1)) in
       let units = List.map zs (List.tl (List.tl a)) in
       String.concat ";" (List.map (fun (c, r) -> string_of_int (int_of_z c) ^ ":" ^ out_n r) (count_rows units ep b))
+  | "decode2d_rows" -> (* ep, ny, argmax, row times : times of the posterior rows | times of the decoded rows | unravel ny argmax *)
+      let ep = iset (g 0) and ny = List.hd (ns (g 1)) and k = List.hd (ns (g 2)) in
+      let rows = List.map (fun t -> (t, [])) (zs (g 3)) in
+      let one = [one_q] in
+      let post = decode2d_post (fun _ -> one_q) one [[one_q]] rows ep (z_of_int 1) in
+      let dec = decode2d_decoded (fun _ -> one_q) one [[one_q]] one one rows ep (z_of_int 1) in
+      let (i, j) = unravel ny k in
+      string_of_int (List.length post) ^ "|" ^ out_z (List.map fst dec) ^ "|" ^ out_n [i; j]
   | "decode_occ" -> (* edges(lo hi nb), fv : centres rebuilt from the edges, then the edges rebuilt from the centres *)
       let (e, c) = edges_of (g 0) in
       (match decode_occ hist (centres2 e) (scale c (zs (g 1))) with None -> "none" | Some l -> out_n l) ^ "|" ^
